@@ -350,6 +350,18 @@ fn repair_case(_ctx: &Ctx, case: u64, r: &mut Rng, rep: &mut Report) {
         let c = gen_cmd(r, &mut h, 1_700_000_000 + step * 500, 0);
         let _ = c.run(&h.env);
     }
+    // two cases in three: a snapshot was forgotten and a prune has marked (not yet removed) packs, tree packs among
+    // them - the cold store still lists those, so the hot store has to hold them too
+    if r.chance(2, 3) {
+        let _ = Cmd::Forget { positions: vec![0] }.run(&h.env);
+        let mut s = PruneSpec::default_safe();
+        s.max_unused = Limit::Pct(0);
+        s.repack_cacheable_only = Some(false);
+        s.repack_all = r.chance(1, 2);
+        let _ = Cmd::Prune { spec: s }.run(&h.env);
+        let marked = crate::rawrepo::index_view(&RawKey::from_master(&h.key), &h.uni.state(COLD)).map(|v| v.marked.len()).unwrap_or(0);
+        rep.count("repair_cases_marked_packs_present", marked as u64);
+    }
     let rk = RawKey::from_master(&h.key);
     let before = match read_each_snapshot(&h.env, r) {
         Ok(b) => b,
